@@ -75,6 +75,11 @@ def rank_cases(j):
     out = []
     for r in range(33):
         d = dict(j); d['name'] = '%s[rank=%d]' % (j['name'], r); d['defines'] = list(j.get('defines', [])) + ['ND_RANK_CASE=%d' % r]
+        # loops over the rank run exactly r times in this case: unwind r+2 (the unwinding assertions keep it complete)
+        fl = list(d.get('cbmc_flags', []))
+        if '--unwind' in fl and not j.get('full_unwind'):
+            fl[fl.index('--unwind') + 1] = str(max(r + 2, 16))   # (the contracts library has loops over the assigns-clause targets)
+        d['cbmc_flags'] = fl
         out.append(d)
     return out
 ND_JOBS = [j for j in ND_JOBS if j['name'] != 'NDSize_copy_ctor'] + rank_cases([j for j in ND_JOBS if j['name'] == 'NDSize_copy_ctor'][0])
